@@ -939,17 +939,25 @@ class SizedReader:
         if self.has_trailers and hasattr(self.fp, 'read_trailer_lines'):
             self.trailers_read = True
             self.trailers = {}
+            k = None
 
             try:
                 for line in self.fp.read_trailer_lines():
                     if line[0] in b' \t':
                         # It's a continuation line.
+                        if k is None:
+                            # ...of nothing: the trailer starts with it.
+                            raise cherrypy.HTTPError(
+                                400, 'Illegal continuation line in the '
+                                'trailer of the request body.')
                         v = line.strip()
                     else:
                         try:
                             k, v = line.split(b':', 1)
                         except ValueError:
-                            raise ValueError('Illegal header line.')
+                            raise cherrypy.HTTPError(
+                                400, 'Illegal header line in the trailer '
+                                'of the request body.')
                         k = k.strip().title()
                         v = v.strip()
 
